@@ -114,6 +114,8 @@ var sinks = []*sink{
 	{name: "jsonscript/type", mk: JSONType},
 	{name: "jsonscript/nonce-from-string", mk: JSONNonce},
 	{name: "jsonscript/ctx-nonce", mk: c0(JSONCtxNonce), ctx: nonceCtx},
+	{name: "jsonscript/empty-own-nonce-under-ctx-nonce", mk: c0(JSONEmptyNonceString), ctx: nonceCtx, mayOmit: true},
+	{name: "jsonscript/empty-nonce-function-under-ctx-nonce", mk: c0(JSONEmptyNonceFunc), ctx: nonceCtx, mayOmit: true},
 	{name: "script-template/ctx-nonce", mk: c0(ScriptCtxNonce), ctx: nonceCtx},
 	{name: "onclick-script/ctx-nonce", mk: c0(OnclickCtxNonce), ctx: nonceCtx},
 }
